@@ -116,6 +116,25 @@ func (h *htlcIncomingContestResolver) Launch() error {
 
 	h.log.Debugf("launching contest resolver...")
 
+	// Once the HTLC has expired, Resolve gives it up no matter whether we
+	// know the preimage. In that case we must not start claiming it here,
+	// nor settle an invoice for it, otherwise the HTLC would be offered to
+	// the sweeper and recorded as timed out at the same time. Leave the
+	// expired HTLC to Resolve.
+	if h.ChainIO != nil {
+		_, bestHeight, err := h.ChainIO.GetBestBlock()
+		if err != nil {
+			return err
+		}
+
+		if uint32(bestHeight) >= h.htlcExpiry {
+			h.log.Debugf("expired (height=%v, expiry=%v), not "+
+				"launching", bestHeight, h.htlcExpiry)
+
+			return nil
+		}
+	}
+
 	// Query the preimage and apply it if we already know it.
 	applied, err := h.findAndapplyPreimage()
 	if err != nil {
